@@ -83,6 +83,10 @@ func (k *KVStore) isCompactionOK(t *table.Table) bool {
 
 func (k *KVStore) Compaction() (bool, error) {
 	for _, t := range k.tables {
+		if t.State() == table.ReadWriteState {
+			// evictTable moves entries to the table that accepts writes.
+			continue
+		}
 		if k.isCompactionOK(t) {
 			err := k.evictTable(t)
 			if err != nil {
